@@ -1011,6 +1011,16 @@ class CollapseCollector(WrappingCollector):
         child = self.child
         matcher = child.matcher
         offset = child.offset
+
+        # (A reversed child collector lists the highest sort keys first - and of
+        # two documents with the same key the later one: then those are the best
+        # documents of a category in the results order)
+        reverse = False
+        c = child
+        while c is not None and not orderer:
+            reverse = reverse or getattr(c, "reverse", False)
+            c = getattr(c, "child", None)
+
         for sub_docnum in child.matches():
             # Collapsing category key
             ckey = keyer.key_to_name(keyer.key_for(matcher, sub_docnum))
@@ -1033,6 +1043,12 @@ class CollapseCollector(WrappingCollector):
                 if len(best) < limit:
                     # If the heap is not full yet, just add this document
                     add = True
+                elif reverse:
+                    if sortkey >= best[0][0]:
+                        child.remove(best.pop(0)[1])
+                        collapsed_counts[ckey] += 1
+                        self.collapsed_total += 1
+                        add = True
                 elif sortkey < best[-1][0]:
                     # If the heap is full but this document has a lower sort
                     # key than the highest key currently on the heap, replace
